@@ -5,7 +5,7 @@
    that overrun their parent or whose header is cut), run through the real decoder, and judged
    here: the decoder must accept exactly when the reference machine accepts, and then return the
    fields of Extract.  One NDJSON record per input:
-     [id, pk, outer : "ok" | "trunc" | "badtype" | "badlen", input : elements, got : "accept"|"reject"|"error:<cls>",
+     [id, pk, must, outer : "ok" | "trunc" | "badtype" | "badlen", input : elements, got : "accept"|"reject"|"error:<cls>",
       out : projection of what the decoder returned (aligned with the packet schema; comps for a name),
       ptr : [dvb, scn, scr, dcr] the SignaturePtrs it returned (TlvModelPackets.Ptrs)]
    For a mismatch TLC prints <<"V", id, <<tag>>>> with tag = "<want>/<why>/<got>".           *)
@@ -16,8 +16,10 @@ Recs == ndJsonDeserialize(IOEnv.JUDGE_IN)
 \* decoder-level normalisations of the generic machine output
 NormFh(fv)   == IF fv.k = "model" /\ fv.v[1].items = <<>> THEN None ELSE fv      \* parse_interest: hint list
 NormMeta(fv) == IF fv.k = "none" THEN [k |-> "model", v |-> <<[k |-> "uint", n |-> <<>>], None, None>>] ELSE fv  \* parse_data: MetaInfo() default, ContentType BLOB
-Norm(pk, out) == CASE pk = "interest" -> [out EXCEPT ![4] = NormFh(@)]
-                   [] pk = "data" -> [out EXCEPT ![2] = NormMeta(@)]
+Norm(pk, out) == CASE pk \in {"interest", "interest2017"} -> [out EXCEPT ![4] = NormFh(@)]
+                   [] pk = "data" -> [out EXCEPT ![2] = NormMeta(@)]     \* (the 2017 parse_data returns None for an absent MetaInfo)
+                   [] pk = "lp.legacy" -> LpLegacyOut(out)
+                   [] pk = "lp.nack" -> NetNackOut(out)
                    [] OTHER -> out
 
 Expect(r) ==
@@ -30,11 +32,14 @@ Expect(r) ==
        ELSE [v |-> "reject", why |-> Why(r.pk, st), out |-> <<>>]
 
 \* derived pointers (SignaturePtrs) of an accepted Interest / Data: r.ptr = what the decoder returned
-ExpectPtrs(r) == IF r.pk \in {"interest", "data"}
+ExpectPtrs(r) == IF r.pk \in {"interest", "data", "interest2017", "data2017"}
                  THEN Ptrs(r.pk, r.input, RunScan(SchemaOfPk(r.pk), IcOfPk(r.pk), r.input))
                  ELSE Ptrs("none", <<>>, <<>>)
+\* r.must = "accept": an unmutated hand-written corpus packet; the reference itself must accept it (else the
+\* corpus is dead: nothing below the rejected element would ever be decided)
 Tags(r) == LET e == Expect(r) IN
-           IF e.v # r.got THEN <<e.v \o "/" \o e.why \o "/" \o r.got>>
+           IF r.must = "accept" /\ e.v # "accept" THEN <<"CORPUS-DEAD/" \o e.why \o "/" \o r.got>>
+           ELSE IF e.v # r.got THEN <<e.v \o "/" \o e.why \o "/" \o r.got>>
            ELSE IF e.v = "accept" /\ e.out # r.out THEN <<e.v \o "/fields-differ/" \o r.got>>
            ELSE IF e.v = "accept" /\ ~PtrsOk(ExpectPtrs(r), r.ptr) THEN <<e.v \o "/pointers-differ/" \o r.got>>
            ELSE <<>>
